@@ -304,10 +304,11 @@ def check_cfg(F, R, cfg):
     if ep:
         fe_ty = ep["variants"][0]["fields"][0]["ty"]
         nf = 0
-        for inst, f_, ok, msg in FR.ristretto(F, fe_ty):
+        import itertools
+        for inst, f_, ok, msg in itertools.chain(FR.ristretto(F, fe_ty), FR.ristretto_batch(F, fe_ty) if F.has_cfg("feature=alloc") else ()):
             nf += 1 if f_ else 0
             (R.ok if ok else R.viol)("C06.formula", I(inst), str(msg), *(() if ok else (F.loc(f_) if f_ else "",)))
-        R.floor("C06.formula", I("ristretto255 formula scenarios decided"), nf, 14)
+        R.floor("C06.formula", I("ristretto255 formula scenarios decided"), nf, 22 if F.has_cfg("feature=alloc") else 14)
 
 
 def same(a, b):
